@@ -33,10 +33,19 @@ type vGenMsg struct {
 }
 
 var vFragLens = []int{0, 2, 1, 3}
+var vFragLensBig = []int{0, 126}
 
 // vGenStream builds a valid stream: nMsgs data messages, each in 1..maxFrag fragments whose lengths come from
 // vFragLens[:nLens], payloads symbolic, optionally a Ping between two fragments. Frames are masked iff sent to a server.
 func vGenStream(toClient bool, nMsgs, maxFrag, nLens int, pings bool) (frames []vFrame, msgs []vGenMsg) {
+	lens := vFragLens
+	if vParam("big", 0) == 1 {
+		lens = vFragLensBig // fragments whose length needs the 16-bit length field
+		nLens = 2
+	}
+	if vParam("deflate", 0) != 0 {
+		return vGenCompressedStream(toClient, nMsgs)
+	}
 	for m := 0; m < nMsgs; m++ {
 		gm := vGenMsg{typ: MessageType(1 + (m+1)%2)}
 		nf := 1 + vChoose("frags", maxFrag)
@@ -48,7 +57,7 @@ func vGenStream(toClient bool, nMsgs, maxFrag, nLens int, pings bool) (frames []
 			if f.masked {
 				copy(f.key[:], vBytes("key", 4))
 			}
-			f.payload = vBytes("payload", vFragLens[vChoose("len", nLens)])
+			f.payload = vBytes("payload", lens[vChoose("len", nLens)])
 			gm.payload = append(gm.payload, f.payload...)
 			if pings && i > 0 && vChoose("ping", 2) == 1 {
 				p := vFrame{fin: true, opcode: 9, masked: !toClient, payload: vBytes("pingp", 1)}
@@ -57,6 +66,26 @@ func vGenStream(toClient bool, nMsgs, maxFrag, nLens int, pings bool) (frames []
 				}
 				frames = append(frames, p)
 			}
+			gm.frames = append(gm.frames, len(frames))
+			frames = append(frames, f)
+		}
+		msgs = append(msgs, gm)
+	}
+	return
+}
+
+// vGenCompressedStream: messages compressed as DEFLATE stored blocks (sync-flush ending), split into one or two frames.
+func vGenCompressedStream(toClient bool, nMsgs int) (frames []vFrame, msgs []vGenMsg) {
+	for m := 0; m < nMsgs; m++ {
+		gm := vGenMsg{typ: MessageType(1 + (m+1)%2)}
+		data := vBytes("payload", 1+vChoose("len", 2))
+		gm.payload = data
+		comp := vStored(data, []int{len(data)}, false)
+		var cuts []int
+		if vChoose("frags", 2) == 1 {
+			cuts = []int{vChoose("fragAt", len(comp)+1)}
+		}
+		for _, f := range vDataFrames(comp, cuts, uint8(gm.typ), true, toClient) {
 			gm.frames = append(gm.frames, len(frames))
 			frames = append(frames, f)
 		}
@@ -101,7 +130,7 @@ func verifC04_cut() {
 	t := vNewTransport(wire[:cut])
 	t.endMode = vChoose("end", 3)
 	t.step = vParam("step", 0)
-	c := vNewConn(t, client, nil, 16, 64)
+	c := vNewConn(t, client, vCopts(vParam("deflate", 0)), 16, 64)
 	g := vReadLoop(c, 1+vChoose("buf", vParam("bufs", 2))*3, nMsgs+1)
 
 	// reference: which messages are complete in the prefix
